@@ -3,6 +3,9 @@
 import json, os
 HOOK_COMMITS = ["1d323e3"]
 CHECKS = {
+ "C01": dict(cat="exploration", tech="runtime monitoring: differential monitor of real runs against an independent executable reference model + relational monitor across surrounding contexts + bounded-exhaustive operator trees",
+   text="Seeded typed programs over the core subset (about 100 000 per quick run) are evaluated by an independent reference interpreter written from the language guide and run by the real implementation; stdout (with trace lines that make operand evaluation order and single evaluation visible), the result value and the outcome class must agree, and the real runs of the same program at top level, inside a function and after 60 live locals must agree with each other. All operator trees with <= 2 binary operators over a 14-value pool are checked with minimal and full parentheses (complete in thorough).",
+   note="Trusted: the reference model kvmodel (calibrated: 0 residual disagreements on 40 000 programs of the pinned tree) and the layout printer. Recorded defect shape F-A1 is avoided by generation (SG-A1), so it is not re-detected by this stream. Bounded by generator depth/size.", ref="4 C01, 3.4.1, appendix A/B"),
  "C06": dict(cat="fault_enumeration", tech="runtime monitoring: panic capture + worker-death classifier over corpus token-neighbourhood, noise, bounded-exhaustive core-lib argument tuples and re-entrancy scripts",
    text="Every host-API phase (compile, format, run, display of result or error) of the real crates is executed under a panic-capturing monitor on: the repository's own programs and their complete single-token delete/duplicate/swap neighbourhood, token soups and character noise, every native prelude function x boundary-value argument tuples (arity 0-2 quick, 0-3 thorough), and scripts whose callbacks/arguments/element metakeys touch the receiver of the running native function. Held = no panic or abnormal death outside the recorded findings on those executions; says nothing about inputs outside these families.",
    note="Trusted: panic hook + backtrace symbolisation; signature = first /repo frame outside crates/memory + core-lib entry points + masked message. Allocation failure / native stack exhaustion are exempt by the property. Native loops that never return (hangs) are inconclusive, not violations.", ref="4 C06, 3.4.6"),
